@@ -68,7 +68,9 @@ class RefWorld:
         it = self.eng[e]
         for key, cl in group_clauses(tt(clauses)).items():
             d = ('clauses', list(cl))
-            if overwrite or key not in it.program:
+            if not overwrite and key not in it.program and key in BUILTIN_KEYS:
+                it.program[key] = [('builtin', None), d]      # appended to the engine's own definition
+            elif overwrite or key not in it.program:
                 it.program[key] = [d]
             else:
                 it.program[key] = it.program[key] + [d]
@@ -430,6 +432,9 @@ class FileLoadImplWorld(ImplWorld):
         import shutil
         if hasattr(self, '_dir'):
             shutil.rmtree(self._dir, ignore_errors=True)
+
+
+BUILTIN_KEYS = {('=', 2), ('\\=', 2), ('findall', 3), ('once', 1), ('assertz', 1), ('asserta', 1), ('retract', 1), ('retractall', 1)}
 
 
 class Blocked(Exception):
